@@ -1,4 +1,4 @@
-import Aiorpcx.C15.Steps
+import Aiorpcx.C15.Order
 import Aiorpcx.Facts.C15
 /-!
 # C15 — back-pressure: blocked sends wait, go out whole once; a stalled peer is aborted
@@ -101,6 +101,26 @@ theorem whole_once (d : Int) (hd : 0 < d) (es : List Event) :
     (∀ m ∈ msgs (run (init d) es).1.blocked, m ∉ (run (init d) es).1.wire) :=
   let h := minv_run es (init d) (minv_init d hd)
   ⟨h.wireNodup, h.wireUsed, h.disjoint⟩
+
+/-- **Order**: the wire carries the messages in the order in which they were handed to a send
+(`used` lists every message id once, in the order of the send calls): blocked senders are served
+first-in first-out, also across re-pauses, time-outs and cancellations of others, and nobody
+overtakes a waiting sender.  In particular the messages one task sends one after another keep
+their order: if `a` is before `b` on the wire then `a` was sent before `b`. -/
+theorem in_order (d : Int) (es : List Event) :
+    (run (init d) es).1.wire.Sublist (run (init d) es).1.used ∧
+    (run (init d) es).1.used.Nodup ∧
+    (∀ a b, [a, b].Sublist (run (init d) es).1.wire → [a, b].Sublist (run (init d) es).1.used) := by
+  have h : OInv (run (init d) es).1 :=
+    oinv_run es (init d) rfl (finv_init d) (by simp [OInv, init, msgs])
+  have hw := List.Sublist.trans (List.sublist_append_left _ _) h
+  exact ⟨hw, used_nodup_run es (init d) (by simp [init]), fun a b hab => List.Sublist.trans hab hw⟩
+
+/-- three senders queue up, the transport re-pauses inside the first write, the second sender
+is cancelled, the third one is written after the next resume: order of the send calls -/
+example :
+    (run (init 20) [.pause, .send 1 1 [], .send 2 2 [], .send 3 3 [], .resume [true], .cancel 2,
+      .send 4 4 [], .resume []]).1.wire = [1, 3, 4] := by decide
 
 /-- **A cancelled sender's message is written whole or not at all** - in the model: a sender
 that is cancelled while blocked has written nothing (`whole_once`: a waiting message is not on
